@@ -178,6 +178,7 @@ PROPS = {
         'level_note': 'Trusted: Lean kernel; axioms propext, Classical.choice, Quot.sound; Blue.Utf8.valid as the model of String::from_utf8; correspondence is agreement on generated cases only (decoders never panic: observed, not proved — the model decoders are total functions and a panic is an oracle failure). string_desc_partial is weaker than the property by exactly the D-20 class.',
     },
     'C05': {
+        'tree_half': 'every multi-input compaction chosen by the real selector in single-stepped store histories: merges conserve the tree\'s multiset of versions and equal the model\'s merged list cut at the observed points; last-level GCs retain exactly what the Lean collector model and the definitional reading of versions=N retain',
         'trusted': ['nom 7.1.3 combinator semantics (tag, multispace0, digit1, opt, recognize, map_res, cut, context, alt, separated_list0, terminated, all_consuming with VerboseError) as transcribed in Blue/Model/GcParse.lean, tied by the printed error-chain correspondence on curated, generated and mutated policy texts'],
         'assumptions': [
             'cursor-level half: the inputs of one compaction are sorted tables whose (key, timestamp) pairs are unique across the inputs (sequence numbers, C01/C06); the conservation theorems take a strict total order on entries',
